@@ -14,6 +14,7 @@ mod c20;
 mod batch;
 mod c14;
 mod vm;
+mod c18;
 mod c06;
 
 thread_local! {
@@ -79,6 +80,7 @@ fn main() {
             "c12_op" => vm::c12_op(r),
             "c04_env" => vm::c04_env(r),
             "c10_step" => vm::c10_step(r),
+            "c18_mint" => c18::c18_mint(r),
             "c11_weight" => vm::c11_weight(r),
             "c11_steps" => vm::c11_steps(r),
             "c11_weigh_time" => vm::c11_weigh_time(r),
